@@ -3,6 +3,7 @@ import UtilModel.Model.Roman
 import UtilModel.Model.Sem
 import UtilModel.Model.Size
 import UtilModel.Model.UU
+import UtilModel.Model.Hist
 /-!
 # Line-protocol driver: one operation per input line, one result line per operation.
 Byte strings are lower-case hex, `-` for the empty string. See DESIGN.md Appendix A.
@@ -85,6 +86,31 @@ def optDate (a b c : String) : Option (Option Date.Date) :=
   else do let y ← a.toInt?; let m ← b.toInt?; let d ← c.toInt?; pure (some (Date.new y m d))
 
 def unixToAbs : Int := 62135596800
+
+def recvStr : Hist.Recv → String
+  | .date d => dateStr d
+  | .roman n => toString n
+  | .sem v => verStr v
+  | .size n => toString n
+  | .uu i => s!"{i.hi.toNat} {i.lo.toNat}"
+
+def resStr : Hist.Res → String
+  | .ok => "ok" | .err e => "err " ++ e.name | .panic => "panic" | .unsupported => "unsupported"
+
+def parseHOp (s : String) : Option Hist.HOp :=
+  match s.splitOn ":" with
+  | ["T", h] => (unhex h).map .text
+  | ["J", h] => (unhex h).map .json
+  | ["B", h] => (unhex h).map .binary
+  | ["S", "t", sec, nsec, off] => do
+    let sec ← sec.toInt?; let nsec ← nsec.toInt?; let off ← off.toInt?
+    pure (.scanTime sec nsec off)
+  | ["S", "x"] => some .scanOther
+  | _ => none
+
+def initRecv : String → Option Hist.Recv
+  | "date" => some (.date Date.zero) | "roman" => some (.roman 0) | "sem" => some (.sem Sem.Ver.zero)
+  | "size" => some (.size 0) | "uu" => some (.uu UU.ID.zero) | _ => none
 
 def step (line : String) : String :=
   let bad := "bad-op"
@@ -226,6 +252,10 @@ def step (line : String) : String :=
     (do let a ← a.toNat?; let b ← b.toNat?
         let i := UU.randomID (BitVec.ofNat 64 a) (BitVec.ofNat 64 b)
         pure s!"{i.hi.toNat} {i.lo.toNat}").getD bad
+  | "hist" :: ty :: ops =>
+    (do let r ← initRecv ty
+        let ops ← ops.mapM parseHOp
+        pure (" | ".intercalate ((Hist.run r ops).map fun (r', res) => resStr res ++ " = " ++ recvStr r'))).getD bad
   | _ => bad
 
 partial def loop (h : IO.FS.Stream) (out : IO.FS.Stream) : IO Unit := do
